@@ -18,7 +18,8 @@ OPS = ["sm2_keygen", "sm2_sign", "sm2_sign_ctx", "sm2_encrypt", "sm2_ecdhe", "sm
        "tls_record", "tls_random", "tls_pms", "tls13_gcm"]
 HEAVY = {"sm9_sign", "sm9_encrypt", "sm9_exchange", "pkcs8", "pkcs8_wrongpass"}
 # which table row a runtime leak of a given op belongs to (site key); others are reported as leak:<op>:<secret>
-SITE_OF_OP = {"hexodd": "site:hex.c:hex2bin:fprintf"}
+SITE_OF_OP = {"hexodd": "site:hex.c:hex2bin:fprintf", "fpprint:tls_secrets_print": "site:tls_trace.c:tls_secrets_print:format_bytes",
+              "fpprint:gf128_print": "site:gf128.c:gf128_print:printf"}
 try:
     sys.path.insert(0, os.path.join(core.ROOT, "props", "C18"))
     import tlsrun                                            # optional in-process handshakes (shared with C18)
@@ -83,6 +84,9 @@ def printers_part(ctx):
         ctx.count("printer")
         if o.startswith("CLEAN"):
             ctx.cell("printer:%s:%s" % (line.split()[1], "prints" if "printed=0" not in o else "silent"))
+        elif o.startswith("STDOUT"):
+            ctx.violation("printer-stream:" + name, "%s() was handed a FILE* and wrote to stdout instead: `%s` -> %s" % (name, line, o[:160]),
+                          {"kind": "failing-input", "op": line, "impl": o, "expected": "CLEAN (all output on the designated FILE*)", "variant": "asan"}, True)
         elif o.startswith("SKIP"):
             ctx.cov.setdefault("printers_not_exercised", []).append(name)
         elif o.startswith("LEAK") or o.startswith("FAULT asan:heap-buffer-overflow") or o.startswith("FAULT asan:stack-buffer-overflow") or o.startswith("FAULT asan:global-buffer-overflow"):
@@ -132,6 +136,8 @@ def cases(ctx):
             out.append(("diag %s %d %d" % (op, r.below(10**6), i), "diag:%s:entropy-failure" % op))
     for _ in range(2 if not thorough else 10):
         out.append(("hexodd %d" % r.below(10**6), "diag:hexodd:induced-failure"))
+    for pr in ("tls_secrets_print", "gf128_print", "sm2_key_print", "tls_pre_master_secret_print"):
+        out.append(("fpprint %s %d" % (pr, r.below(10**6)), "diag:fpprint:%s" % pr))
     return out
 
 
@@ -162,7 +168,8 @@ def run(ctx):
                     ctx.sample({"op": line, "result": o[:120]})
             elif o.startswith("LEAK"):
                 m = re.search(r"secret=(\S+) enc=(\S+)", o)
-                key = SITE_OF_OP.get(op, "leak:%s:%s" % (op, m.group(1)))
+                opk = op if op != "fpprint" else "fpprint:" + line.split()[1]
+                key = SITE_OF_OP.get(opk, "leak:%s:%s" % (opk, m.group(1)))
                 leaks.setdefault(key, (line, o))
             else:
                 ctx.violation("runtime:" + cell, "capture harness failed on `%s`: %s" % (line, o[:200]),
